@@ -95,6 +95,9 @@ func runC08(w *World, r *Report) {
 	c08KindSort(w, r)
 	c08Barrier(w, r)
 	c08ContentWritten(w, r)
+	r.Rule("C08/WIRING", "HideSecret, SubNotes, IncludeCRDs and SkipCRDs are fed only from the options of the same name and bound to their own command-line flags", 3)
+	checkWiring(w, r, "C08/WIRING", map[string]bool{"HideSecret": true, "SubNotes": true, "IncludeCRDs": true, "SkipCRDs": true})
+	checkFlagBinding(w, r, "C08/WIRING", map[string]bool{"HideSecret": true, "SubNotes": true, "IncludeCRDs": true, "SkipCRDs": true})
 }
 
 func c08Partition(w *World, r *Report) {
@@ -156,6 +159,41 @@ func c08Partition(w *World, r *Report) {
 		if all {
 			outer = n
 		}
+	}
+	// the loop over the documents is left only when the documents are exhausted (its header) or with an
+	// error: a break out of it would drop every remaining document
+	{
+		comp := sccOf(fn)[outer.Block()]
+		inComp := map[*ssa.BasicBlock]bool{}
+		for _, b := range comp {
+			inComp[b] = true
+		}
+		early := ""
+		for _, b := range comp {
+			isHeader := false
+			for _, p := range b.Preds {
+				if !inComp[p] {
+					isHeader = true
+				}
+			}
+			if isHeader {
+				continue
+			}
+			for _, sb := range b.Succs {
+				if inComp[sb] {
+					continue
+				}
+				for _, rp := range g.classifyReturns() {
+					if rp.Class != RetSuccess {
+						continue
+					}
+					if ex, _ := g.PathExists(IPos{sb, -1}, retPos(rp), Avoid{}); ex {
+						early = w.InstrPos(firstInstr(b))
+					}
+				}
+			}
+		}
+		r.Check(early == "" && len(comp) > 1, "C08/PARTITION", "no-early-exit", w.InstrPos(outer), "the per-document loop ends only when every document was looked at (or with an error)", "the per-document loop can be left early without an error (from "+early+"): the documents that follow in the file are lost")
 	}
 	// no iteration appends to both
 	both := false
